@@ -23,6 +23,23 @@ package workers
 //@   ensures [issued] (m.maxIterations == 0 || m.iteration <= m.maxIterations) ==> (result.1 == nil && result.0 == m.iteration)
 //@   ensures [refused] (m.maxIterations > 0 && m.iteration > m.maxIterations) ==> (result.1 != nil && result.0 == 0)
 //@
+//@ // C03 under interleaving (variant @conc): other workers issue ids at the same time. G3count = the number of ids issued
+//@ // so far by anyone; the rely is that the others keep the counter equal to it (each of their issues is one atomic
+//@ // add); the guarantee is that this call does too, which it can only do if reading and advancing the counter is ONE
+//@ // atomic step (with a separate load and store another worker's issue in between is overwritten: a duplicate id).
+//@ ghost var G3count int
+//@ fnspec idsEnv(m *PoolManager)
+//@   modifies m.iteration, G3count
+//@   ensures m.iteration - old(m.iteration) == G3count - old(G3count) && G3count >= old(G3count) && G3count < 4611686018427387904
+//@
+//@ func (*PoolManager).NextIteration @conc
+//@   props C03
+//@   interference idsEnv(m)
+//@   requires m != nil && m.iteration == G3count && 0 <= G3count && G3count < 4611686018427387904
+//@   modifies m.iteration, G3count
+//@   ghost at exit : G3count = G3count + 1
+//@   ensures [the-counter-counts-the-ids-issued] m.iteration == G3count
+//@
 //@ func (*PoolManager).MaxIterationsReached
 //@   props C03 C05
 //@   modifies nothing
